@@ -761,6 +761,12 @@ func (c *Ctx) c15Protocol() {
 			}
 		}
 	}
+	for _, p := range paths {
+		if ev := countersStartAtZero(p); ev != nil {
+			r.Bad("R15.4", name, "counter-not-zero", c.Pos(ev.Pos), "the count of deleted entries does not start at 0", shortTrace(p))
+			break
+		}
+	}
 	if nDel == 0 || nErrExit == 0 || nMarks == 0 {
 		r.Unknown("R15.3", name, fmt.Sprintf("vacuous: %d Delete sites, %d error exits, %d marks", nDel, nErrExit, nMarks))
 	}
